@@ -783,6 +783,91 @@ func TestFromFiles(t *testing.T) {
 	evid.Exhaustive("sets with blank lines, indentation and blank-only scripts read back from a directory", n)
 }
 
+// TestRelinkWithFailedCallee: the error table of an earlier load - its errors already rendered and encoded, as a host
+// that logs them does - is handed to the exported linker together with a newly checked script that uses one of the
+// failed scripts: the new script is rejected with the callee's error followed by its own call site, in the position
+// chain and in the rendered text alike, and the stored errors stay what they were.
+func TestRelinkWithFailedCallee(t *testing.T) {
+	bads := []string{"x = = 1", "y = 2\nnosuch()", "x = len(len(nosuch()))", "if true {\n  z = [1, {\"k\": len(len(len(nosuch2())))}]\n}", "use(\"missing.p\")", "a b\nc = 1 $ 2"}
+	mains := []string{"use(\"lib.p\")", "x = 1\n  use(\"lib.p\")", "if true {\n  use(\"lib.p\")\n}\nuse(\"ok.p\")", "use(\"ok.p\")\nfor i in [1] { use(\"lib.p\") }"}
+	render := func(pe *errchain.PlError) string {
+		if pe == nil || len(pe.PosChain) == 0 {
+			return "<no positions>"
+		}
+		out := fmt.Sprintf("%s:%d:%d: %s", pe.PosChain[0].File, pe.PosChain[0].Ln, pe.PosChain[0].Col, pe.Err)
+		for _, p := range pe.PosChain[1:] {
+			out += fmt.Sprintf("\n%s:%d:%d:", p.File, p.Ln, p.Col)
+		}
+		return out
+	}
+	n := 0
+	for bi, bad := range bads {
+		for mi, mainSrc := range mains {
+			for _, rendered := range []bool{true, false} {
+				set1 := map[string]string{"lib.p": bad, "ok.p": "add_key(ok, 1)"}
+				ok1, errs1, crash := impl.LoadV1(set1, call, check)
+				rp := map[string]any{"first_load": set1, "then_linked": map[string]string{"main.p": mainSrc}, "errors_rendered_in_between": rendered}
+				if crash != nil || errs1["lib.p"] == nil || ok1["ok.p"] == nil {
+					rk.Fail(t, "relink-failed", rp, "harness: first load: %v %v", errs1, crash)
+				}
+				libErr := impl.PlErr(errs1["lib.p"])
+				libText, libN := render(libErr), len(libErr.PosChain)
+				if rendered {
+					for _, e := range errs1 {
+						_ = e.Error()
+						_, _ = json.Marshal(e)
+					}
+				}
+				stmts, perr, pcrash := impl.Parse("main.p", mainSrc)
+				if perr != nil || pcrash != nil {
+					t.Fatalf("harness: %v %v", perr, pcrash)
+				}
+				ms := &plrt.Script{FuncCall: call, Name: "main.p", Content: mainSrc, Ast: stmts}
+				if cerr := ms.Check(check); cerr != nil {
+					t.Fatalf("harness: %v", cerr)
+				}
+				all := map[string]*plrt.Script{"main.p": ms}
+				for k, v := range ok1 {
+					all[k] = v
+				}
+				var okr map[string]*plrt.Script
+				var errr map[string]error
+				func() {
+					defer func() {
+						if r := recover(); r != nil {
+							rk.Fail(t, "relink-failed", rp, "EngineCallRefLinkAndCheck panicked: %v", r)
+						}
+					}()
+					okr, errr = engine.EngineCallRefLinkAndCheck(all, errs1)
+				}()
+				if okr["main.p"] != nil || errr["main.p"] == nil {
+					rk.Fail(t, "relink-failed", rp, "main.p uses the failed script lib.p but was accepted by the linker (%v)", errr)
+				}
+				me := impl.PlErr(errr["main.p"])
+				if me == nil || len(me.PosChain) != libN+1 {
+					rk.Fail(t, "relink-failed", rp, "error of main.p: %v, want the %d position(s) of lib.p's error followed by main.p's call site", errr["main.p"], libN)
+				}
+				at := strings.Index(mainSrc, "use(\"lib.p\")")
+				if last := me.PosChain[libN]; last.File != "main.p" || last.Pos != at {
+					rk.Fail(t, "relink-failed", rp, "error of main.p ends with %s offset %d, want main.p offset %d (its use call)", last.File, last.Pos, at)
+				}
+				if got := errr["main.p"].Error(); got != render(me) {
+					rk.Fail(t, "relink-failed", rp, "the text of main.p's error does not show its position chain:\ntext:  %q\nchain: %q", got, render(me))
+				}
+				if !strings.HasPrefix(errr["main.p"].Error(), libText) {
+					rk.Fail(t, "relink-failed", rp, "the text of main.p's error %q does not begin with the callee's error %q", errr["main.p"].Error(), libText)
+				}
+				if render(impl.PlErr(errs1["lib.p"])) != libText || errs1["lib.p"].Error() != libText {
+					rk.Fail(t, "relink-failed", rp, "the stored error of lib.p changed while main.p was linked: %q -> %q", libText, errs1["lib.p"].Error())
+				}
+				evid.Case(fmt.Sprintf("relinkfailed/%d/%d/%v", bi, mi, rendered), true, "relink-with-failed-callee")
+				n++
+			}
+		}
+	}
+	evid.Exhaustive("failing callee x caller text x {errors rendered before linking, not rendered}", n)
+}
+
 func TestRelink(t *testing.T) {
 	rk.Check(t, "relink", 11, evid.Scale(400, 4000), func(t *rapid.T) {
 		n := rapid.IntRange(2, 6).Draw(t, "n")
